@@ -144,6 +144,8 @@ func NewTickDriver(mode string) *TickDriver {
 		add(tickOp{kind: "delNode", k: -1, signer: "A"}, tickOp{kind: "updStateIR", k: -1, state: 1, signer: "A"}, tickOp{kind: "updStateIR", k: -1, state: 3, signer: "A"},
 			tickOp{kind: "updState", k: -1, state: 1, signer: "A"}, tickOp{kind: "addNode", k: -1, signer: "A"}, tickOp{kind: "shortBlob", signer: "A"},
 			tickOp{kind: "addNodeOffline", k: 0, signer: "AN"},
+			// the network setting that names the Maintenance state, switched off and on
+			tickOp{kind: "setCfg", sub: "MaintenanceModeAllowed", state: 0, signer: "A"}, tickOp{kind: "setCfg", sub: "MaintenanceModeAllowed", state: 1, signer: "A"},
 			// a candidate announced with any state but Online: Offline, the unnamed zero, a number outside the enumeration, a negative one
 			tickOp{kind: "addNodeSt", k: 0, state: 2, signer: "AN"}, tickOp{kind: "addNodeSt", k: 0, state: 0, signer: "AN"},
 			tickOp{kind: "addNodeSt", k: 0, state: 42, signer: "AN"}, tickOp{kind: "addNodeSt", k: 0, state: -1, signer: "AN"})
@@ -251,6 +253,8 @@ func (d *TickDriver) OpName(n *Node, i int) string {
 	switch o.kind {
 	case "newEpoch":
 		return fmt.Sprintf("newEpoch(%d) by %s", o.target(m.epoch), o.signer)
+	case "setCfg":
+		return fmt.Sprintf("setConfig(%s, %d) by %s", o.sub, o.state, o.signer)
 	case "subscribe":
 		return fmt.Sprintf("subscribeForNewEpoch(%s) by %s", o.sub, o.signer)
 	case "nextBlock":
@@ -413,6 +417,12 @@ func (d *TickDriver) Step(x *Exec, n *Node, i int) StepResult {
 		} else {
 			applyState(2)
 		}
+	case "setCfg":
+		// a network setting: the candidate state machine of the statement does not depend on any
+		scr = Script(h, "setConfig", []byte{byte(o.state)}, []byte(o.sub), []byte{byte(o.state)})
+		if !alpha {
+			expHalt = false
+		}
 	case "subscribe":
 		scr = Script(h, "subscribeForNewEpoch", w.Contracts[o.sub].Hash)
 		if !alpha || o.sub == "nns" {
@@ -485,7 +495,7 @@ func (d *TickDriver) Step(x *Exec, n *Node, i int) StepResult {
 	if fmt.Sprint(tickCanon(obs.Notifs)) != fmt.Sprint(tickCanon(expN)) {
 		return viol("notifications", fmt.Sprintf("got %v want %v", obs.Notifs, expN))
 	}
-	if len(expN) == 0 && changed {
+	if len(expN) == 0 && changed && o.kind != "setCfg" {
 		return viol("noop-but-changed", fmt.Sprintf("a call the model treats as a no-op changed state: %v", diff))
 	}
 	// ---- read back ----
